@@ -17,7 +17,7 @@ import (
 func init() {
 	register(&Check{
 		ID:   "C06",
-		Rule: "case = (type, message) with types mixing alignments 1/2/4/8 (odd-length strings before list<i64>, *bool before *double, Wide zoo struct), list/string sizes on both sides of the allocator's 256-byte large-object and 2048-byte block thresholds, list<string>, list<*struct>, maps with pointer keys/values, optional scalar pointers, holders, zero-length values; after decoding, the memory walker lists every pointee / slice backing array up to cap / non-empty string: each must be aligned, pairwise disjoint - also against the pieces of the 64 most recent decoded objects kept alive -, and outside the input buffer. Then a stress epoch: the input is overwritten, 3-8 further messages are decoded through the same pooled decoder (pool sanitizer skewing and filling the recycled block in half of the cases), runtime.GC() x3 (GODEBUG=clobberfree=1 in the clobber build: freed memory is overwritten), fresh garbage of the same size classes is allocated and filled, and the raw image and canonical value of every retained object are compared with the snapshot taken right after its decode. The allocator contract monitor hook checks every sub-allocation. distinct = distinct type shape; non-trivial = the object has at least 3 pieces",
+		Rule: "case = (type, message) with types mixing alignments 1/2/4/8 (odd-length strings before list<i64>, *bool before *double, Wide zoo struct), list/string sizes on both sides of the allocator's 256-byte large-object and 2048-byte block thresholds, list<string>, list<*struct>, maps with pointer keys/values, optional scalar pointers, holders, zero-length values; after decoding, the memory walker lists every pointee / slice backing array up to cap / non-empty string: each must be aligned, outside the program's static image (except string constants of default initialisers), pairwise disjoint - also against the pieces of the 64 most recent decoded objects kept alive -, and outside the input buffer. Then a stress epoch: the input is overwritten, 3-8 further messages are decoded through the same pooled decoder (pool sanitizer skewing and filling the recycled block in half of the cases), runtime.GC() x3 (GODEBUG=clobberfree=1 in the clobber build: freed memory is overwritten), fresh garbage of the same size classes is allocated and filled, and the raw image and canonical value of every retained object are compared with the snapshot taken right after its decode. The allocator contract monitor hook checks every sub-allocation. distinct = distinct type shape; non-trivial = the object has at least 3 pieces",
 		Plan: func(tier string) []BuildPlan {
 			if tier == "thorough" {
 				return []BuildPlan{{"plain", 20000}, {"clobber", 20000}, {"checkptr", 10000}, {"asan", 6000}, {"race", 2000}}
@@ -36,6 +36,7 @@ type liveObj struct {
 	image  [][]byte
 	canon  []byte
 	idx    int
+	static *mon.Piece
 }
 
 var (
@@ -84,6 +85,7 @@ func c06Type(r *gen.Rand) *schema.Struct {
 		func() *schema.Type { return schema.PtrTo(schema.Scalar(schema.I64)) },
 		func() *schema.Type { return schema.PtrTo(schema.Scalar(schema.String)) },
 		func() *schema.Type { return schema.PtrTo(schema.Scalar(schema.I8)) },
+		func() *schema.Type { return schema.PtrTo(schema.Scalar(schema.Binary)) },
 		func() *schema.Type {
 			return schema.MapOf(schema.StructOf(gen.Zoo(&zoo.Leaf{}), true), schema.StructOf(gen.Zoo(&zoo.Wide{}), true))
 		},
@@ -122,9 +124,29 @@ func c06Value(r *gen.Rand, s *schema.Struct) reflect.Value {
 	return gen.NewValue(r, s, vc)
 }
 
+// staticPiece returns a piece of a decoded object that lives in the program's static image
+// although nothing legitimately puts it there: string constants are set by default
+// initialisers only (types with InitDefault), and a slice or pointee is never static.
+func staticPiece(s *schema.Struct, pieces []mon.Piece) *mon.Piece {
+	hasInit := false
+	walkSchema(s, map[*schema.Struct]bool{}, func(st *schema.Struct) {
+		if st.HasInit {
+			hasInit = true
+		}
+	})
+	for i := range pieces {
+		p := &pieces[i]
+		if p.Size > 0 && mon.IsStatic(*p) && !(p.Kind == "string" && hasInit) {
+			return p
+		}
+	}
+	return nil
+}
+
 func snapshotObj(s *schema.Struct, v reflect.Value, idx int) *liveObj {
 	o := &liveObj{s: s, v: v, idx: idx}
 	mon.Walk(v.Elem(), "", &o.pieces)
+	o.static = staticPiece(s, o.pieces)
 	o.pieces = mon.DropStatic(o.pieces) // string constants set by default initialisers are not the decoder's
 	for i := range o.pieces {
 		o.pieces[i].Owner = idx
@@ -171,6 +193,9 @@ func runC06(c *harness.Ctx, idx int) {
 	}
 	if a := mon.CheckAlign(o.pieces); a != "" {
 		c.Violation("align", "C06/misaligned", "%s", a)
+	}
+	if p := o.static; p != nil {
+		c.Violation("static", "C06/static-memory/"+p.Kind, "%s %s (%d bytes at %#x) of the decoded object lies in the program's static data, shared by every decode, instead of memory of its own", p.Kind, p.Path, p.Size, p.Addr)
 	}
 	lo, hi := mon.Addr(in), mon.Addr(in)+uintptr(len(in))
 	if ov := mon.Overlapping(o.pieces, lo, hi); len(ov) > 0 {
@@ -295,6 +320,9 @@ func runC06NoCopy(c *harness.Ctx, r *gen.Rand, poison bool) {
 	}
 	var pieces []mon.Piece
 	mon.Walk(dst.Elem(), "", &pieces)
+	if p := staticPiece(s, pieces); p != nil {
+		c.Violation("static", "C06/static-memory/"+p.Kind, "%s %s (%d bytes at %#x) of the decoded object lies in the program's static data, shared by every decode", p.Kind, p.Path, p.Size, p.Addr)
+	}
 	pieces = mon.DropStatic(pieces)
 	if len(pieces) >= 3 {
 		c.NonTrivial()
